@@ -2,10 +2,79 @@
    delay / observe_on schedule every notification as its own one-shot task (OnceTask) with
    the configured delay (none for observe_on); delay_subscription / subscribe_on schedule one
    subscribing task.  What such a task can do under ANY order and timing of polls: *)
-From RxModel Require Import Sched.
-From RxSpec Require Import SchedSpec.
-From RxProofs Require SchedLaws.
+From RxModel Require Import Sched Timed.
+From RxSpec Require Import SchedSpec TimedSpec.
+From RxProofs Require SchedLaws TimedLaws RelayLaws.
 Open Scope N_scope.
+
+(* The operators themselves, for EVERY sequence of labels (input notifications, polls of any task
+   at any time and in any order, clock advances of any size, unsubscribe, is_closed queries, the
+   downstream starting to report finished): every delivery made by delay / observe_on is the
+   notification of the task being polled, made no earlier than its arrival plus the delay, at
+   most once, never after a terminal or after unsubscribe() returned (delay forwards an error at
+   once) ... *)
+Theorem C07_delay :
+  forall d ls, relay_ok d true ls (run_timed (TDelay d) ls) = true.
+Proof. exact RelayLaws.delay_meets_spec. Qed.
+
+Theorem C07_observe_on :
+  forall ls, relay_ok 0 false ls (run_timed TObserveOn ls) = true.
+Proof. exact RelayLaws.observe_on_meets_spec. Qed.
+
+(* ... and delay_subscription / subscribe_on hand the subscriber the input's own notifications,
+   none before the delay has elapsed, none after unsubscribe() returned, at most one terminal *)
+Theorem C07_delay_subscription :
+  forall d ls, passthru_ok d ls (run_timed (TDelaySubscription d) ls) = true.
+Proof. exact RelayLaws.delay_subscription_meets_spec. Qed.
+
+Theorem C07_subscribe_on :
+  forall ls, passthru_ok 0 ls (run_timed TSubscribeOn ls) = true.
+Proof. exact RelayLaws.subscribe_on_meets_spec. Qed.
+
+(* Order: the t-th task carries the t-th relayed input notification, so whenever the executor
+   runs the tasks in the order in which they were scheduled (what a FIFO executor does) the
+   deliveries are a sub-sequence of the input in input order; an executor that picks ready
+   tasks in another order does reorder (each notification is an independent task): see the
+   Example below *)
+Theorem C07_delay_order :
+  forall d ls,
+    (forall t e, In (t, e) (RelayLaws.deliveries ls None (run_timed (TDelay d) ls)) -> nth_error (RelayLaws.relayed true ls) t = Some e) /\
+    (RelayLaws.increasing (RelayLaws.deliveries ls None (run_timed (TDelay d) ls)) ->
+     RelayLaws.subseq (map snd (RelayLaws.deliveries ls None (run_timed (TDelay d) ls))) (RelayLaws.relayed true ls)).
+Proof. exact RelayLaws.delay_order. Qed.
+
+Theorem C07_observe_on_order :
+  forall ls,
+    (forall t e, In (t, e) (RelayLaws.deliveries ls None (run_timed TObserveOn ls)) -> nth_error (RelayLaws.relayed false ls) t = Some e) /\
+    (RelayLaws.increasing (RelayLaws.deliveries ls None (run_timed TObserveOn ls)) ->
+     RelayLaws.subseq (map snd (RelayLaws.deliveries ls None (run_timed TObserveOn ls))) (RelayLaws.relayed false ls)).
+Proof. exact RelayLaws.observe_on_order. Qed.
+
+(* Completeness under a FIFO executor: every task polled when it is scheduled (its timer is
+   armed by that first poll) and again, in order, once the delay has elapsed: all items, in
+   order, then the completion, each exactly the delay after it was produced *)
+Theorem C07_delay_fifo_complete :
+  forall d vs, 0 < d ->
+    TimedLaws.touts (run_timed (TDelay d)
+           (map (fun v => LSrc (Next v)) vs ++ LSrc Done ::
+            map LRun (seq 0 (S (length vs))) ++ LAdv d :: map LRun (seq 0 (S (length vs)))))
+    = map (fun v => TOut d (Next v)) vs ++ [TOut d Done].
+Proof. exact RelayLaws.delay_fifo_complete. Qed.
+
+Theorem C07_observe_on_fifo_complete :
+  forall vs,
+    TimedLaws.touts (run_timed TObserveOn (map (fun v => LSrc (Next v)) vs ++ LSrc Done :: map LRun (seq 0 (S (length vs)))))
+    = map (fun v => TOut 0 (Next v)) vs ++ [TOut 0 Done].
+Proof. exact RelayLaws.observe_on_fifo_complete. Qed.
+
+(* a failing source: delay forwards the error at once and nothing follows it, whatever happens
+   afterwards (the items still waiting for their delay are the lost suffix: "a prefix of them") *)
+Theorem C07_delay_error_prefix :
+  forall d vs e rest,
+    TimedLaws.touts (run_timed (TDelay d) (map (fun v => LSrc (Next v)) vs ++ LSrc (Err e) :: rest)) = [TOut 0 (Err e)].
+Proof. exact RelayLaws.delay_error_prefix. Qed.
+
+(* What a single relayed notification's task can do under ANY order and timing of polls: *)
 
 (* never before the instant the notification was produced plus the delay *)
 Theorem C07_never_early :
@@ -32,6 +101,38 @@ Check C07_at_most_once : forall cont job ls now delay,
 Check C07_not_after_unsubscribe : forall cont ls now job delay,
     quiet_after_cancel (trun cont now (spawn (BOnce job) delay) ls) = true.
 
+Check C07_delay : forall d ls, relay_ok d true ls (run_timed (TDelay d) ls) = true.
+Check C07_observe_on : forall ls, relay_ok 0 false ls (run_timed TObserveOn ls) = true.
+Check C07_delay_subscription : forall d ls, passthru_ok d ls (run_timed (TDelaySubscription d) ls) = true.
+Check C07_subscribe_on : forall ls, passthru_ok 0 ls (run_timed TSubscribeOn ls) = true.
+Check C07_delay_order : forall d ls,
+    (forall t e, In (t, e) (RelayLaws.deliveries ls None (run_timed (TDelay d) ls)) -> nth_error (RelayLaws.relayed true ls) t = Some e) /\
+    (RelayLaws.increasing (RelayLaws.deliveries ls None (run_timed (TDelay d) ls)) ->
+     RelayLaws.subseq (map snd (RelayLaws.deliveries ls None (run_timed (TDelay d) ls))) (RelayLaws.relayed true ls)).
+Check C07_observe_on_order : forall ls,
+    (forall t e, In (t, e) (RelayLaws.deliveries ls None (run_timed TObserveOn ls)) -> nth_error (RelayLaws.relayed false ls) t = Some e) /\
+    (RelayLaws.increasing (RelayLaws.deliveries ls None (run_timed TObserveOn ls)) ->
+     RelayLaws.subseq (map snd (RelayLaws.deliveries ls None (run_timed TObserveOn ls))) (RelayLaws.relayed false ls)).
+Check C07_delay_fifo_complete : forall d vs, 0 < d ->
+    TimedLaws.touts (run_timed (TDelay d)
+           (map (fun v => LSrc (Next v)) vs ++ LSrc Done ::
+            map LRun (seq 0 (S (length vs))) ++ LAdv d :: map LRun (seq 0 (S (length vs)))))
+    = map (fun v => TOut d (Next v)) vs ++ [TOut d Done].
+Check C07_observe_on_fifo_complete : forall vs,
+    TimedLaws.touts (run_timed TObserveOn (map (fun v => LSrc (Next v)) vs ++ LSrc Done :: map LRun (seq 0 (S (length vs)))))
+    = map (fun v => TOut 0 (Next v)) vs ++ [TOut 0 Done].
+Check C07_delay_error_prefix : forall d vs e rest,
+    TimedLaws.touts (run_timed (TDelay d) (map (fun v => LSrc (Next v)) vs ++ LSrc (Err e) :: rest)) = [TOut 0 (Err e)].
+
+Print Assumptions C07_delay.
+Print Assumptions C07_observe_on.
+Print Assumptions C07_delay_subscription.
+Print Assumptions C07_subscribe_on.
+Print Assumptions C07_delay_order.
+Print Assumptions C07_observe_on_order.
+Print Assumptions C07_delay_fifo_complete.
+Print Assumptions C07_observe_on_fifo_complete.
+Print Assumptions C07_delay_error_prefix.
 Print Assumptions C07_never_early.
 Print Assumptions C07_at_most_once.
 Print Assumptions C07_not_after_unsubscribe.
@@ -39,4 +140,17 @@ Print Assumptions C07_not_after_unsubscribe.
 Example C07_example :
   trun (fun _ => false) 3 (spawn (BOnce 0) (Some 5)) [TPoll 0; TPoll 4; TPoll 1; TPoll 2]
   = [ORan 0 8].
+Proof. vm_compute. reflexivity. Qed.
+
+(* an executor that polls ready tasks out of order reorders the items: the hypothesis of
+   C07_delay_order is needed *)
+Example C07_example_unordered_polls_reorder :
+  TimedLaws.touts (run_timed TObserveOn [LSrc (Next (VZ 1)); LSrc (Next (VZ 2)); LSrc (Next (VZ 3)); LRun 0; LRun 2; LRun 1])
+  = [TOut 0 (Next (VZ 1)); TOut 0 (Next (VZ 3)); TOut 0 (Next (VZ 2))].
+Proof. vm_compute. reflexivity. Qed.
+
+(* the timer of a delayed notification is armed by the first poll of its task, not when it is scheduled *)
+Example C07_example_unarmed :
+  TimedLaws.touts (run_timed (TDelay 5) [LSrc (Next (VZ 1)); LAdv 5; LRun 0; LAdv 4; LRun 0; LAdv 1; LRun 0])
+  = [TOut 10 (Next (VZ 1))].
 Proof. vm_compute. reflexivity. Qed.
